@@ -196,8 +196,14 @@ template <class T, class V> static void vecPairs (const char* vn)
     {
         // canonical witnesses first (deterministic, seed independent): one huge component whose square overflows, one tiny one
         static int first = 0;
-        if (first < 2) { for (int k = 0; k < N; ++k) a[k] = T (0);
-                         a[0] = (T) std::ldexp (1.0, first == 0 ? std::numeric_limits<T>::max_exponent / 2 + 1 : std::numeric_limits<T>::min_exponent / 2 - 2); ++first; }
+        if (first < 3)
+        {
+            for (int k = 0; k < N; ++k) a[k] = T (0);
+            if (first == 0) a[0] = (T) std::ldexp (1.0, std::numeric_limits<T>::max_exponent / 2 + 1);       // square overflows, length representable
+            else if (first == 1) a[0] = (T) std::ldexp (1.0, std::numeric_limits<T>::min_exponent / 2 - 2);  // square underflows
+            else { a[0] = std::numeric_limits<T>::max (); a[1] = std::numeric_limits<T>::max (); }           // the length itself overflows
+            ++first;
+        }
     }
     std::vector<T> in;
     for (int k = 0; k < N; ++k) in.push_back (a[k]);
